@@ -201,8 +201,12 @@ def classes():
                    none_for_empty=False):
         """StreamFromGenerator / StreamFromAsyncGenerator over a recording generator."""
 
+        runs = [0]
+
         def ev(kind, **kw):
-            return world.ev(side, kind, uid=uid, dir=dirn, **kw)
+            # run > 1: the library called the generator factory again (it does so when credit arrives after the
+            # stream has completed); only the first run is the stream the application handed over
+            return world.ev(side, kind, uid=uid, dir=dirn, run=runs[0], **kw)
 
         def items():
             for idx, lens in enumerate(els):
@@ -212,6 +216,7 @@ def classes():
 
         if not asynchronous:
             def factory():
+                runs[0] += 1
                 ev('gen_start')
                 try:
                     for idx, d, m, complete in items():
@@ -230,6 +235,7 @@ def classes():
             cls = L['StreamFromGenerator']
         else:
             async def factory():
+                runs[0] += 1
                 ev('gen_start')
                 try:
                     for idx, d, m, complete in items():
